@@ -39,7 +39,10 @@ def ref_eq(a, b):
     if ka == "set":
         sa, sb = dedupe(a[1]), dedupe(b[1])
         return len(sa) == len(sb) and all(member(x, sb) for x in sa)
-    if ka in ("map", "obj"):
+    if ka == "obj":
+        da, db = dict(a[1]), dict(b[1])          # member names are plain strings
+        return set(da) == set(db) and all(ref_eq(da[n], db[n]) for n in da)
+    if ka == "map":
         ma, mb = dedupe_map(a[1]), dedupe_map(b[1])
         if len(ma) != len(mb):
             return False
